@@ -1,3 +1,227 @@
+"""C07, part 2: the reactor YAML file (pmutt.io.omkm.write_yaml).
+
+Cases come from TLC (spec/MC_ReactorYaml_cases.cfg): an assignment of forms to options, how
+`units` is passed, the unit system and a generic-dictionary flavour, together with the concrete
+value of every supplied option (chosen by ReactorYaml.tla, exactly representable).  `execute`
+builds the keyword arguments, calls write_yaml, loads the text with yaml.safe_load and projects
+the loaded document to its leaves; spec/Trace_ReactorYaml.tla judges (ReactorYaml!Verdict).
+"""
+import json
+
+from harness import core
+from harness.core import to_dec, to_dec_exact
+
 SHARDS = 5
-def models(ctx): return []
-def generate(ctx, rnd): return []
+UNIT_KEYS = ('length', 'time', 'quantity', 'energy', 'act_energy', 'pressure', 'mass')
+
+
+def _txt(codes):
+    return ''.join(chr(c) for c in codes)
+
+
+def _num(d):
+    m, e = d
+    return m * (10 ** e) if e >= 0 else m / (10 ** (-e))
+
+
+def _species(name):
+    import numpy as np
+    from pmutt.empirical.nasa import Nasa
+    return Nasa(name=name, elements={'H': 2}, phase='gas', T_low=300., T_mid=600., T_high=1000.,
+                a_low=np.arange(7.), a_high=np.arange(7.))
+
+
+def _value(arg):
+    import numpy as np
+    form = arg['form']
+    if form == 'py_int':
+        return int(_num(arg['num']))
+    if form == 'py_float':
+        return float(_num(arg['num']))
+    if form == 'np_int':
+        return np.int64(int(_num(arg['num'])))
+    if form == 'np_float':
+        return np.float64(_num(arg['num']))
+    if form in ('str', 'str_with_unit'):
+        return arg['str']
+    if form in ('true', 'false'):
+        return form == 'true'
+    if form == 'names_str':
+        return list(arg['strs'])
+    if form == 'names_obj':
+        if arg['o'] == 'reactions_SA':
+            from pmutt.omkm.reaction import SurfaceReaction
+            sp = _species('H2')
+            return [SurfaceReaction(id=n, reactants=[sp], reactants_stoich=[1.], products=[sp],
+                                    products_stoich=[1.]) for n in arg['strs']]
+        return [_species(n) for n in arg['strs']]
+    if form == 'list_py':
+        return [float(_num(x)) for x in arg['nums']]
+    if form == 'np_array':
+        return np.array([float(_num(x)) for x in arg['nums']])
+    if form == 'list_str':
+        return list(arg['strs'])
+    if form == 'list_mixed':
+        return [float(_num(arg['nums'][0])), arg['strs'][1]]
+    if form in ('ph_empty', 'ph_gas', 'ph_all'):
+        from pmutt.omkm.phase import IdealGas, StoichSolid, InteractingInterface
+        if form == 'ph_empty':
+            return []
+        if form == 'ph_gas':
+            return [IdealGas(name='gas', species=[])]
+        return [IdealGas(name='gas', species=[], initial_state={'H2': 0.5, 'N2': 0.5}),
+                StoichSolid(name='bulk', species=[]),
+                InteractingInterface(name='terrace', species=[], initial_state={'RU(T)': 1.0}),
+                InteractingInterface(name='step', species=[])]
+    raise core.MachineryError('unknown form %r' % (form,))
+
+
+KW = {'reactor_type': 'reactor_type'}
+
+
+def _kwargs(case):
+    kw = {}
+    for arg in case['args']:
+        kw[arg['o']] = _value(arg)
+    texts = {k: _txt(v) for k, v in case['unit_texts'].items()}
+    if case['units'] == 'obj':
+        from pmutt.omkm.units import Units
+        kw['units'] = Units(**{k: texts[k] for k in UNIT_KEYS})
+    elif case['units'] == 'dict':
+        kw['units'] = {k: texts[k] for k in UNIT_KEYS}
+    gen = case['gen']
+    if gen == 'reactor_temperature':
+        kw['reactor'] = {'temperature': 700}
+    elif gen == 'misc_foo':
+        kw['misc'] = {'foo': 1}
+    elif gen == 'solver_atol':
+        kw['solver'] = {'atol': 1e-9}
+    elif gen == 'inlet_flow':
+        kw['inlet_gas'] = {'flow_rate': '9 cm3/s'}
+    return kw
+
+
+def _leaf(path, v):
+    base = {'path': path, 'k': 'other', 'num': [0, 0], 's': '', 'codes': [], 'b': False}
+    if isinstance(v, bool):
+        base.update(k='bool', b=v)
+    elif isinstance(v, (int, float)):
+        if not core.finite(v):
+            base.update(k='nonfinite')
+        else:
+            try:
+                d = to_dec_exact(v)
+            except ValueError:
+                d = to_dec(v)
+            base.update(k='num', num=d)
+    elif isinstance(v, str):
+        base.update(k='str', s=v, codes=core.text_codes(v) if len(v) <= 60 and v.isascii() else [])
+    elif v is None:
+        base.update(k='null')
+    return base
+
+
+def flatten(doc, path=()):
+    out = []
+    if isinstance(doc, dict):
+        if not doc and path:
+            out.append(_leaf(list(path), None) | {'k': 'empty'})
+        for k, v in doc.items():
+            out.extend(flatten(v, path + (str(k),)))
+    elif isinstance(doc, (list, tuple)):
+        if not doc and path:
+            out.append(_leaf(list(path), None) | {'k': 'empty'})
+        for i, v in enumerate(doc):
+            out.extend(flatten(v, path + ('#%d' % (i + 1),)))
+    else:
+        out.append(_leaf(list(path), doc))
+    return out
+
+
+def execute(case):
+    import yaml
+    from pmutt.io.omkm import write_yaml
+    obs = {'raised': '', 'loaded': False, 'leaves': []}
+    text = None
+    try:
+        kw = _kwargs(case)
+    except core.MachineryError:
+        raise
+    try:
+        text = write_yaml(**kw)
+    except Exception as ex:                               # the library raised on a valid call
+        obs['raised'] = type(ex).__name__
+        obs['msg'] = str(ex)[:200]
+    if text is not None:
+        try:
+            doc = yaml.safe_load(text)
+            obs['loaded'] = True
+        except yaml.YAMLError as ex:
+            doc = None
+            obs['msg'] = ('%s: %s' % (type(ex).__name__, ex))[:200]
+        if obs['loaded']:
+            obs['leaves'] = flatten(doc if doc is not None else {})
+    c = {'assign': case['assign'], 'units': case['units'], 'usys': case['usys'], 'gen': case['gen']}
+    return case, [{'ev': 'case', 'c': c, 'obs': obs}], []
+
+
+def supplied(case):
+    return {a['o']: a['form'] for a in case['args']}
+
+
+def tags(case):
+    sup = supplied(case)
+    t = {'part': 'reactor', 'units': case['units'], 'phases': sup.get('phases', 'omitted')}
+    if case['gen'] != 'none':
+        t['gen'] = case['gen']
+    others = sorted(set(f for o, f in sup.items() if o != 'phases'))
+    t['forms'] = '+'.join(others) if len(others) <= 2 else 'many'
+    return t
+
+
+def event_tags(case, events, idxs, clause):
+    obs = events[idxs[0]]['obs']
+    t = {}
+    if obs.get('raised'):
+        t['exc'] = obs['raised']
+    return t
+
+
+def signature(case):
+    return json.dumps([case['assign'], case['units'], case['usys'], case['gen']])
+
+
+def nontrivial(case):
+    return len(case['args']) >= 1
+
+
+def sample(case):
+    return {'part': 'reactor', 'supplied': supplied(case), 'units': case['units'], 'gen': case['gen']}
+
+
+def models(ctx):
+    def good():
+        ctx.model('MC_ReactorYaml', 'MC_ReactorYaml', workers=2)
+
+    def pinned():
+        bad = ctx.model('MC_ReactorYaml', 'MC_ReactorYaml_pinned', workers=1, expect_ok=False)
+        if bad.ok or bad.violated is None:
+            raise core.MachineryError('the pinned _assign_yaml_val variant should be rejected')
+        ctx.notes.append('ReactorYaml.tla rejects the pinned _assign_yaml_val algorithm: %s violated'
+                         % bad.violated)
+    return [good, pinned]
+
+
+def generate(ctx, rnd):
+    data, r = core.tlc_cases('MC_ReactorYaml', 'MC_ReactorYaml_cases')
+    allc = data[0]
+    for c in allc:
+        c['part'] = 'reactor'
+    ctx.coverage['reactor_tlc_cases'] = len(allc)
+    small = [c for c in allc if len(c['args']) != 2]
+    pairs = [c for c in allc if len(c['args']) == 2]
+    pairs.sort(key=lambda c: json.dumps(c['assign']) + c['units'])
+    if ctx.quick:
+        rnd.shuffle(pairs)
+        pairs = pairs[:1500]
+    return small + pairs
